@@ -58,3 +58,36 @@ Proof.
   - destruct Hk as [-> | ->]; cbn [bg_env length]; lia.
   - destruct Hk as [-> | ->]; reflexivity.
 Qed.
+
+(* a second program over the same environment, with the n-ary concat, slice and a constant factor:
+     y = sum_axis0( slice_{axis 0, [1,3)}( concat([w, x * w, 3 * w], 0) ) ) = w[1] + x[0] * w[0] *)
+Definition bg_prog2 : dexpr (R := Z) :=
+  DUn (USum 0) (DUn (USlice 0 1 2) (DConcat 0 [DLeaf 1; DBin BMul (DLeaf 0) (DLeaf 1); DUn (UMulC 3%Z) (DLeaf 1)])).
+
+Lemma bg2_hyps :
+  dwf 0%Z Z.add Z.mul Z.sub Z.opp 3 bg_env bg_prog2 /\
+  bg_eval bg_env bg_prog2 = (mkT [1; 1] 3, [30; 50; 70]%Z).
+Proof.
+  split; [|vm_compute; reflexivity].
+  cbn [bg_prog2 dwf fold_right]. repeat split; try (cbn [bg_env length]; lia); try (vm_compute; lia); try discriminate.
+  vm_compute. repeat (constructor; [repeat split; auto|]). constructor.
+Qed.
+
+Lemma bg2_values :
+  bg_grad bg_env bg_prog2 bg_gy = [[10; 0; 100; 0; 1000; 0]; [531; 111]; [0; 0; 0; 0]]%Z /\
+  map (fun b => bg_grad (env_s b bg_env) (dsample b bg_prog2) (block b 1 bg_gy)) [0; 1; 2]
+  = [[[10; 0]; [1; 1]; [0; 0; 0; 0]]; [[100; 0]; [30; 10]; [0; 0; 0; 0]]; [[1000; 0]; [500; 100]; [0; 0; 0; 0]]]%Z /\
+  vsum 0%Z Z.add [[1; 1]; [30; 10]; [500; 100]]%Z 2 = [531; 111]%Z.
+Proof. vm_compute. repeat split. Qed.
+
+Lemma bg2_applied :
+  nth 1 (bg_grad bg_env bg_prog2 bg_gy) []
+  = vsum 0%Z Z.add (map (fun b => nth 1 (bg_grad (env_s b bg_env) (dsample b bg_prog2) (block b 1 bg_gy)) []) (range 3)) 2.
+Proof.
+  destruct bg_hyps as (He & _). destruct bg2_hyps as (Hw & Hv).
+  apply (grad_shared_is_sum 0%Z 1%Z Z.add Z.mul Z.sub Z.opp bgZth 3 bg_env bg_prog2 bg_gy 1); try assumption; try lia.
+  - unfold bg_eval, bg_erase in Hv. rewrite Hv. reflexivity.
+  - unfold bg_eval, bg_erase in Hv. rewrite Hv. reflexivity.
+  - cbn [bg_env length]. lia.
+  - reflexivity.
+Qed.
